@@ -131,7 +131,17 @@ def has_int_keyed_buildable(diff):
   return bool(found)
 
 
-def judge(diff, old, make_copy, acc, witness, tag):
+WEIRD_KEY = 'no-compilable-fiddler:argument-name-is-a-keyword-or-no-identifier'
+
+
+def has_weird_names(*roots):
+  import keyword
+  return any(isinstance(n, gen.B) and any(isinstance(k, str) and (keyword.iskeyword(k) or not k.isidentifier())
+                                          for k in n.kw)
+             for r in roots for n in gen.walk(r))
+
+
+def judge(diff, old, make_copy, acc, witness, tag, weird_names=False):
   """Runs the emitted fiddler in all four modes against apply_diff."""
   ref_copy = make_copy()
   try:
@@ -158,13 +168,19 @@ def judge(diff, old, make_copy, acc, witness, tag):
       code = module.code
     except Exception as e:  # pylint: disable=broad-except
       why = 'positional-argument-in-new-value' if has_int_keyed_buildable(diff) else 'other'
+      if weird_names and why == 'other':
+        acc.violation(WEIRD_KEY, f'fiddler_from_diff raised {e!r}'[:300], witness(mode=mode))
+        continue
       acc.violation(f'fiddler_from_diff-raises:{type(e).__name__}:{why}',
                     f'fiddler_from_diff raised {e!r}'[:300] + f' [{mode}]', witness(mode=mode))
       continue
     try:
       compiled = compile(code, '<fiddler>', 'exec')
     except SyntaxError as e:
-      acc.violation(f'fiddler-does-not-compile:{mode}', repr(e)[:200], witness(mode=mode, code=code[-1500:]))
+      if weird_names:
+        acc.violation(WEIRD_KEY, 'does not compile: ' + repr(e)[:200], witness(mode=mode, code=code[-1500:]))
+      else:
+        acc.violation(f'fiddler-does-not-compile:{mode}', repr(e)[:200], witness(mode=mode, code=code[-1500:]))
       continue
     ns = {}
     target = make_copy()
@@ -208,7 +224,8 @@ def run_main(spec, acc):
       d.update(kw)
       return d
 
-    judge(diff, old, lambda: gen.to_fiddle(old_root), acc, witness, 'generated')
+    judge(diff, old, lambda: gen.to_fiddle(old_root), acc, witness, 'generated',
+          weird_names=has_weird_names(old_root, new_root))
 
 
 def run_handmade(spec, acc):
